@@ -86,6 +86,15 @@ AREAS = {
         "property": "C17 C18 (notedownSrc, the write loop / message / Clean order of main, Clean, isAllInOneFile, isGeneratedBy: "
                     "the system calls issued = plan / faulted plan k of Model/Fs.v)",
     },
+    # stage 7: more analysis code
+    "mapcheck": {
+        "module": "MapCheckGen",
+        "bridge": "Bridge/MapCheckBridge.v",
+        "prims": ["GoPrims", "MapPrims", "MapCheckPrims"],
+        "targets": ["Base/Str.vo", "Model/Mapper.vo"],
+        "property": "C09 C05 (prepareReadPaths, nilCheckRead, nilCheckWrite of internal/mapper/check.go = paths_map / the need predicates / "
+                    "ptr_path_list of Model/Mapper.v analyse)",
+    },
     "enum": {
         "module": "EnumGen",
         "bridge": "Bridge/EnumBridge.v",
